@@ -6,6 +6,7 @@ use std::panic::{catch_unwind, AssertUnwindSafe};
 
 mod deblock_cases;
 mod h263_cases;
+mod unit_cases;
 mod util;
 mod yuv_cases;
 
@@ -21,6 +22,14 @@ fn run_line(line: &str) -> String {
         "D" => deblock_cases::image(&rest),
         "J" => deblock_cases::table(),
         "Y" => yuv_cases::image(&rest),
+        "L" => unit_cases::dequant(&rest),
+        "IDC" => unit_cases::intradc(&rest),
+        "M" => unit_cases::mvdecode(&rest),
+        "A" => unit_cases::average(&rest),
+        "LP" => unit_cases::lerp_params(&rest),
+        "MED" => unit_cases::median(&rest),
+        "N" => unit_cases::predict(&rest),
+        "T" => unit_cases::idct(&rest),
         "H" => h263_cases::header(&rest),
         "P" => h263_cases::history(&rest, false),
         "PX" => h263_cases::history(&rest, true),
